@@ -1,6 +1,6 @@
 import OrbitModel.Proofs.ReplRun
 /-!
-# Replicator: the six moves of the deterministic scheduler, in explicit form
+# Replicator: the seven moves of the deterministic scheduler, in explicit form
 -/
 namespace Orbit.Repl
 
@@ -15,23 +15,32 @@ def slotSt (s : St) (ws : List Worker) (hh : Nat) : St :=
   { setTask s hh .fetching with
     queue := s.queue.filter (· != hh), sem := s.sem - 1, inProgress := s.inProgress + 1, workers := ws }
 
+/-- a fetch returned an entry of this log (before its links are queued): workers become `ws`, the
+hash is buffered -/
+def bufSt (s : St) (ws : List Worker) (hh : Nat) : St :=
+  { s with workers := ws, buffer := s.buffer ++ [hh] }
+
 /-- what a move of the deterministic scheduler does -/
 inductive Move (net : Nat → Info) (s : St) : St → Prop
   /-- a fetching worker whose context is done fails -/
   | fail (l1 l2 : List Worker) (ctx hh : Nat) (hw : s.workers = l1 ++ ⟨ctx, hh, .fetching⟩ :: l2)
       (hc : s.cancelled.contains ctx = true) :
       Move net s (failedDone { s with workers := l1 ++ l2 } hh)
-  /-- a fetch returns an entry of another log -/
-  | okForeign (l1 l2 : List Worker) (ctx hh : Nat) (hw : s.workers = l1 ++ ⟨ctx, hh, .fetching⟩ :: l2)
+  /-- a fetch returns an entry of another log: nothing is buffered or queued -/
+  | fetchedForeign (l1 l2 : List Worker) (ctx hh : Nat)
+      (hw : s.workers = l1 ++ ⟨ctx, hh, .fetching⟩ :: l2)
       (hc : s.cancelled.contains ctx = false) (hf : (net hh).foreign = true) :
-      Move net s (done { s with workers := l1 ++ l2 } hh)
+      Move net s { s with workers := l1 ++ ⟨ctx, hh, .finishing⟩ :: l2 }
   /-- a fetch returns an entry of this log: it is buffered and its fresh links `nw` are queued -/
-  | ok (l1 l2 : List Worker) (ctx hh : Nat) (nw : List Nat)
+  | fetched (l1 l2 : List Worker) (ctx hh : Nat) (nw : List Nat)
       (hw : s.workers = l1 ++ ⟨ctx, hh, .fetching⟩ :: l2)
       (hc : s.cancelled.contains ctx = false) (hf : (net hh).foreign = false) (hnd : nw.Nodup)
       (hnew : ∀ k ∈ nw, k ∈ (net hh).links ∧ task s k = none ∧ k ∉ s.log)
       (hcov : ∀ k ∈ (net hh).links, k ∈ s.log ∨ task s k ≠ none ∨ k ∈ nw) :
-      Move net s (done (enqd { s with workers := l1 ++ l2, buffer := s.buffer ++ [hh] } ctx nw) hh)
+      Move net s (enqd (bufSt s (l1 ++ ⟨ctx, hh, .finishing⟩ :: l2) hh) ctx nw)
+  /-- a worker that has queued its parents runs `processEntryDone` -/
+  | finish (l1 l2 : List Worker) (ctx hh : Nat) (hw : s.workers = l1 ++ ⟨ctx, hh, .finishing⟩ :: l2) :
+      Move net s (done { s with workers := l1 ++ l2 } hh)
   /-- a waiting worker whose context is done gives up -/
   | giveUp (l1 l2 : List Worker) (ctx hh : Nat) (hw : s.workers = l1 ++ ⟨ctx, hh, .waitSlot⟩ :: l2)
       (hc : s.cancelled.contains ctx = true) :
@@ -49,13 +58,18 @@ theorem findIdx_some {p : Worker → Bool} {l : List Worker} {i : Nat} (h : l.fi
   obtain ⟨hi, hp, _⟩ := List.findIdx?_eq_some_iff_getElem.1 h
   exact ⟨l[i], List.getElem?_eq_getElem hi, hp⟩
 
-theorem pc_cases (w : Worker) : isFetch w = true ∨ isWait w = true := by
-  obtain ⟨_, _, pc⟩ := w
-  cases pc <;> simp [isFetch, isWait]
+theorem findIdx_none_pc {l : List Worker} {pc : PC} (h : l.findIdx? (fun w => w.pc == pc) = none)
+    {w : Worker} (hw : w ∈ l) : w.pc ≠ pc := by
+  have := List.findIdx?_eq_none_iff.1 h w hw
+  simpa using this
 
 /-- `pickMove = none` means quiescent -/
 theorem pickMove_none (h : pickMove s = none) : s.workers = [] ∧ s.pending = [] := by
   unfold pickMove at h
+  cases h0 : s.workers.findIdx? (fun w => w.pc == .finishing) with
+  | some i => simp only [h0] at h; cases h
+  | none =>
+  simp only [h0] at h
   cases h1 : s.workers.findIdx? (fun w => w.pc == .fetching) with
   | some i =>
     obtain ⟨w, hw, _⟩ := findIdx_some h1
@@ -72,26 +86,43 @@ theorem pickMove_none (h : pickMove s = none) : s.workers = [] ∧ s.pending = [
         | nil => rfl
         | cons w ws =>
           exfalso
-          rw [List.findIdx?_eq_none_iff] at h1 h2
           have m : w ∈ s.workers := hws ▸ List.mem_cons_self
-          rcases pc_cases w with hp | hp
-          · have := h1 w m; simp [isFetch] at hp; simp [hp] at this
-          · have := h2 w m; simp [isWait] at hp; simp [hp] at this
+          have a0 := findIdx_none_pc h0 m
+          have a1 := findIdx_none_pc h1 m
+          have a2 := findIdx_none_pc h2 m
+          obtain ⟨_, _, pc⟩ := w
+          cases pc
+          · exact a2 rfl
+          · exact a1 rfl
+          · exact a0 rfl
       · cases hp : s.pending with
         | nil => rfl
         | cons b r => simp [hp] at h
 
-/-- **every move of the deterministic scheduler is one of the six `Move`s** -/
+/-- **every move of the deterministic scheduler is one of the seven `Move`s** -/
 theorem pickMove_move (hi : Inv net c s) (hc : 0 < c) {a : Act} (h : pickMove s = some a) :
     Move net s (step net s a) := by
   unfold pickMove at h
+  cases h0 : s.workers.findIdx? (fun w => w.pc == .finishing) with
+  | some i =>
+    obtain ⟨w, hwi, hpc⟩ := findIdx_some h0
+    obtain ⟨ctx, hh, pc⟩ := w
+    have : pc = .finishing := by simpa using hpc
+    subst this
+    obtain ⟨l1, l2, hw, _, hrm, _⟩ := split_at hwi
+    simp only [h0, Option.some.injEq] at h
+    subst h
+    simp only [step, hwi, hrm]
+    exact Move.finish l1 l2 ctx hh hw
+  | none =>
+  simp only [h0] at h
   cases h1 : s.workers.findIdx? (fun w => w.pc == .fetching) with
   | some i =>
     obtain ⟨w, hwi, hpc⟩ := findIdx_some h1
     obtain ⟨ctx, hh, pc⟩ := w
     have : pc = .fetching := by simpa using hpc
     subst this
-    obtain ⟨l1, l2, hw, _, hrm, _⟩ := split_at hwi
+    obtain ⟨l1, l2, hw, _, hrm, hset⟩ := split_at hwi
     simp only [h1, hwi] at h
     cases hcc : s.cancelled.contains ctx with
     | true =>
@@ -102,15 +133,17 @@ theorem pickMove_move (hi : Inv net c s) (hc : 0 < c) {a : Act} (h : pickMove s 
     | false =>
       simp only [hcc, Bool.false_eq_true, if_false, Option.some.injEq] at h
       subst h
-      simp only [step, hwi, hrm, hcc, Bool.false_eq_true, if_false]
+      simp only [step, hwi, hset, hcc, Bool.false_eq_true, if_false]
       cases hf : (net hh).foreign with
-      | true => simp only [if_true]; exact Move.okForeign l1 l2 ctx hh hw hcc hf
+      | true => simp only [if_true]; exact Move.fetchedForeign l1 l2 ctx hh hw hcc hf
       | false =>
         simp only [Bool.false_eq_true, if_false]
         obtain ⟨nw, hnd, hnew, hcov, heq⟩ := foldl_enqueue_spec ctx (net hh).links
-          { s with workers := l1 ++ l2, buffer := s.buffer ++ [hh] }
+          (bufSt s (l1 ++ ⟨ctx, hh, .finishing⟩ :: l2) hh)
+        show Move net s (List.foldl (enqueue ctx) (bufSt s (l1 ++ ⟨ctx, hh, .finishing⟩ :: l2) hh)
+          (net hh).links)
         rw [heq]
-        exact Move.ok l1 l2 ctx hh nw hw hcc hf hnd hnew hcov
+        exact Move.fetched l1 l2 ctx hh nw hw hcc hf hnd hnew hcov
   | none =>
     simp only [h1] at h
     cases h2 : s.workers.findIdx? (fun w => w.pc == .waitSlot) with
@@ -128,11 +161,16 @@ theorem pickMove_move (hi : Inv net c s) (hc : 0 < c) {a : Act} (h : pickMove s 
       | false =>
         simp only [Bool.false_eq_true, if_false]
         have hs : s.sem ≠ 0 := by
-          have h0 : s.inProgress = 0 := by
+          have h0' : s.inProgress = 0 := by
             rw [hi.inprog_eq, List.countP_eq_zero]
             intro w hw
-            have := List.findIdx?_eq_none_iff.1 h1 w hw
-            simpa [isFetch] using this
+            have a0 := findIdx_none_pc h0 hw
+            have a1 := findIdx_none_pc h1 hw
+            obtain ⟨_, _, pc⟩ := w
+            cases pc
+            · simp
+            · exact absurd rfl a1
+            · exact absurd rfl a0
           have := hi.sem_eq; omega
         simp only [hs, if_false]
         have := Move.slot (net := net) l1 l2 ctx hh hw hcc hs
